@@ -90,12 +90,13 @@ Lemma idx_drop_fields s id fact :
   st_hooks (idx_drop s id fact) = st_hooks s /\ st_calls (idx_drop s id fact) = st_calls s /\
   st_fail (idx_drop s id fact) = st_fail s /\ st_amb (idx_drop s id fact) = st_amb s /\
   st_tindex (idx_drop s id fact) =
-    fold_left (fun idx t => ti_rem t id idx) (extract_terms fact) (st_tindex s).
+    fold_left (fun idx t => ti_rem t id idx) (extract_terms fact) (st_tindex s) /\
+  st_pending (idx_drop s id fact) = st_pending s.
 Proof.
   unfold idx_drop. pose proof (eqp_pre_drop s id fact) as H.
-  cbn [st_kind st_store st_hooks st_calls st_fail st_amb st_tindex set_tindex set_facts].
-  destruct H as (H1 & H2 & H3 & H4 & H5 & H6 & H7 & H8).
-  rewrite H1, H3, H4, H5, H6, H7, H8. repeat split; reflexivity.
+  cbn [st_kind st_store st_hooks st_calls st_fail st_amb st_pending st_tindex set_tindex set_facts].
+  destruct H as (H1 & H2 & H3 & H4 & H5 & H6 & H7 & H8 & H9).
+  rewrite H1, H3, H4, H5, H6, H7, H8, H9. repeat split; reflexivity.
 Qed.
 
 (** * The frame *)
@@ -104,43 +105,40 @@ Section Frame.
   Variable R : state -> state -> Prop.
   Hypothesis R_refl : forall s, R s s.
   Hypothesis R_trans : forall a b c, R a b -> R b c -> R a c.
-  Hypothesis R_amb : forall s a, R s (set_amb s a).
+  Hypothesis R_pending : forall s p, R s (set_pending s p).
   Hypothesis R_head : forall s id, R s (fst (rem_head s id)).
+
+  (** the reads proper only note ids *)
+  Lemma expire_R s id fact now : R s (fst (expire s id fact now)).
+  Proof.
+    unfold expire. destruct (fact_expired fact now); [|apply R_refl].
+    cbn [fst]. apply R_pending.
+  Qed.
+
+  Lemma search_ids_R ids : forall s pattern now acc,
+    R s (fst (search_ids s ids pattern now acc)).
+  Proof.
+    induction ids as [|id r IH]; intros s pattern now acc; cbn [search_ids].
+    - apply R_refl.
+    - destruct (alookup id (st_facts s)) as [fact|]; [|apply IH].
+      pose proof (expire_R s id fact now) as H.
+      destruct (expire s id fact now) as [s1 expired]. cbn [fst] in H.
+      destruct expired; [eapply R_trans; [exact H|apply IH]|].
+      destruct (core_match pattern fact []) as [[|b bss]|e|w|]; try exact H;
+        (eapply R_trans; [exact H|apply IH]).
+  Qed.
+
+  Lemma search_state_R s pattern now : R s (fst (search_state s pattern now)).
+  Proof.
+    unfold search_state. destruct (st_kind s).
+    - destruct (ti_search (st_tindex s) (extract_terms pattern)); try apply R_refl.
+      apply search_ids_R.
+    - apply search_ids_R.
+  Qed.
 
   Section WithRec.
     Variable rr : state -> string -> Z -> state * outcome bool.
     Hypothesis rr_R : forall s id now, R s (fst (rr s id now)).
-
-    Lemma expire_R s id fact now : R s (fst (fst (expire rr s id fact now))).
-    Proof.
-      unfold expire. destruct (fact_expired fact now); [|apply R_refl].
-      pose proof (rr_R s id now) as H.
-      destruct (rr s id now) as [s' o]. cbn [fst] in *.
-      destruct (S (count_facts s') <? count_facts s)%nat; [|exact H].
-      eapply R_trans; [exact H|apply R_amb].
-    Qed.
-
-    Lemma search_ids_R ids : forall s pattern now acc,
-      R s (fst (search_ids rr s ids pattern now acc)).
-    Proof.
-      induction ids as [|id r IH]; intros s pattern now acc; cbn [search_ids].
-      - apply R_refl.
-      - destruct (alookup id (st_facts s)) as [fact|]; [|apply IH].
-        pose proof (expire_R s id fact now) as H.
-        destruct (expire rr s id fact now) as [[s1 expired] err]. cbn [fst] in H.
-        destruct (expire_stops (st_kind s) err); [exact H|].
-        destruct expired; [eapply R_trans; [exact H|apply IH]|].
-        destruct (core_match pattern fact []) as [[|b bss]|e|w|]; try exact H;
-          (eapply R_trans; [exact H|apply IH]).
-    Qed.
-
-    Lemma search_state_R s pattern now : R s (fst (search_state rr s pattern now)).
-    Proof.
-      unfold search_state. destruct (st_kind s).
-      - destruct (ti_search (st_tindex s) (extract_terms pattern)); try apply R_refl.
-        apply search_ids_R.
-      - apply search_ids_R.
-    Qed.
 
     Lemma rem_list_R ids : forall s skip now, R s (fst (rem_list rr s ids skip now)).
     Proof.
@@ -156,7 +154,7 @@ Section Frame.
     Proof.
       unfold delete_dependencies.
       pose proof (search_state_R s (dw_pattern id) now) as H.
-      destruct (search_state rr s (dw_pattern id) now) as [s1 [found|e|w|]]; cbn [fst] in *; try exact H.
+      destruct (search_state s (dw_pattern id) now) as [s1 [found|e|w|]]; cbn [fst] in *; try exact H.
       eapply R_trans; [exact H|apply rem_list_R].
     Qed.
 
@@ -182,20 +180,51 @@ Section Frame.
   Lemma st_rem_rec_R s id now : R s (fst (st_rem_rec s id now)).
   Proof. apply rem_fuel_R. Qed.
 
+  (** the purge: rounds of removals *)
+  Lemma purge_ids_R ids : forall s now, R s (fst (purge_ids s ids now)).
+  Proof.
+    induction ids as [|id r IH]; intros s now; cbn [purge_ids]; [apply R_refl|].
+    destruct (alookup id (st_facts s)) as [fact|]; [|apply IH].
+    destruct (fact_expired fact now); [|apply IH].
+    pose proof (st_rem_R s id now) as H.
+    destruct (st_rem s id now) as [s1 [b|e|w|]]; cbn [fst] in *; try exact H;
+      (eapply R_trans; [exact H|apply IH]).
+  Qed.
+
+  Lemma purge_fuel_R fuel : forall s now, R s (fst (purge_fuel fuel s now)).
+  Proof.
+    induction fuel as [|f IH]; intros s now; cbn [purge_fuel].
+    - destruct (st_pending s); apply R_refl.
+    - destruct (st_pending s) as [|i ids]; [apply R_refl|].
+      pose proof (purge_ids_R (i :: ids) (set_pending s []) now) as H.
+      assert (H0 : R s (fst (purge_ids (set_pending s []) (i :: ids) now))).
+      { eapply R_trans; [apply R_pending|exact H]. }
+      destruct (purge_ids (set_pending s []) (i :: ids) now) as [s1 [u|e|w|]]; cbn [fst] in *; try exact H0.
+      eapply R_trans; [exact H0|apply IH].
+  Qed.
+
+  Lemma purge_R s now : R s (fst (purge s now)).
+  Proof. apply purge_fuel_R. Qed.
+
+  Lemma with_purge_R {A} s (r : state * outcome A) now : R s (fst r) -> R s (fst (with_purge r now)).
+  Proof. intros H. unfold with_purge. cbn [fst]. eapply R_trans; [exact H|apply purge_R]. Qed.
+
   Lemma st_search_R s p now : R s (fst (st_search s p now)).
-  Proof. apply search_state_R. apply st_rem_rec_R. Qed.
+  Proof. unfold st_search. apply with_purge_R. apply search_state_R. Qed.
+
+  Lemma get_body_R s id now : R s (fst (get_body s id now)).
+  Proof.
+    unfold get_body. destruct (alookup id (st_facts s)) as [fact|]; [|apply R_refl].
+    pose proof (expire_R s id fact now) as H.
+    destruct (expire s id fact now) as [s1 [|]]; exact H.
+  Qed.
 
   Lemma st_get_R s id now : R s (fst (st_get s id now)).
-  Proof.
-    unfold st_get. destruct (alookup id (st_facts s)) as [fact|]; [|apply R_refl].
-    destruct (fact_expired fact now); [|apply R_refl].
-    pose proof (st_rem_R s id now) as H.
-    destruct (st_rem s id now) as [s1 [b|e|w|]]; exact H.
-  Qed.
+  Proof. unfold st_get. apply with_purge_R. apply get_body_R. Qed.
 
   Lemma st_Rem_R s id now : R s (fst (st_Rem s id now)).
   Proof.
-    unfold st_Rem. destruct (st_hooks s); [|apply st_rem_R].
+    unfold st_Rem. apply with_purge_R. destruct (st_hooks s); [|apply st_rem_R].
     pose proof (st_get_R s id now) as H.
     destruct (st_get s id now) as [s1 [b|e|w|]]; cbn [fst] in *; try exact H.
     eapply R_trans; [exact H|apply st_rem_R].
@@ -206,8 +235,8 @@ Section Frame.
     induction ids as [|id r IH]; intros s now acc; cbn [find_ids_idx].
     - apply R_refl.
     - destruct (alookup id (st_facts s)) as [fact|]; [|apply R_refl].
-      pose proof (expire_R st_rem_rec st_rem_rec_R s id fact now) as H.
-      destruct (expire st_rem_rec s id fact now) as [[s1 expired] err]. cbn [fst] in H.
+      pose proof (expire_R s id fact now) as H.
+      destruct (expire s id fact now) as [s1 expired]. cbn [fst] in H.
       destruct expired; [eapply R_trans; [exact H|apply IH]|].
       destruct (extract_rule fact true) as [[body|]|e|w|]; try exact H.
       eapply R_trans; [exact H|apply IH].
@@ -219,27 +248,27 @@ Section Frame.
     - apply R_refl.
     - destruct (alookup id (st_facts s)) as [fact|]; [|apply IH].
       destruct (jget "rule" fact) as [rule|]; [|apply IH].
-      pose proof (expire_R st_rem_rec st_rem_rec_R s id fact now) as H.
-      destruct (expire st_rem_rec s id fact now) as [[s1 expired] err]. cbn [fst] in H.
+      pose proof (expire_R s id fact now) as H.
+      destruct (expire s id fact now) as [s1 expired]. cbn [fst] in H.
       assert (Hn : forall acc', R s (fst (find_ids_lin s1 r ev now acc'))).
       { intros acc'. eapply R_trans; [exact H|apply IH]. }
-      destruct err; [exact H|].
       destruct expired; [apply Hn|].
       destruct rule as [| | | | |rm]; try apply Hn.
       destruct (alookup "when" rm) as [[| | | | |w]|]; try apply Hn.
       destruct (core_match _ ev []) as [[|b bss]|e|w'|]; try exact H; apply Hn.
   Qed.
 
+  Lemma do_find_rules_R s ev now : R s (fst (do_find_rules s ev now)).
+  Proof.
+    unfold do_find_rules. apply with_purge_R. destruct (st_kind s).
+    - destruct (pi_search (st_pindex s) ev); try apply R_refl. apply find_ids_idx_R.
+    - apply find_ids_lin_R.
+  Qed.
+
   Lemma st_find_rules_R s ev now : R s (fst (st_find_rules s ev now)).
   Proof.
-    unfold st_find_rules.
-    match goal with
-    | |- R s (fst (let '(a, b) := ?X in _)) => assert (H : R s (fst X)); [|destruct X as [s1 res]]
-    end.
-    { destruct (st_kind s).
-      - destruct (pi_search (st_pindex s) ev); try apply R_refl. apply find_ids_idx_R.
-      - apply find_ids_lin_R. }
-    cbn [fst] in H.
+    unfold st_find_rules. pose proof (do_find_rules_R s ev now) as H.
+    destruct (do_find_rules s ev now) as [s1 res]. cbn [fst] in H.
     destruct res as [l|e|w|]; exact H.
   Qed.
 End Frame.
@@ -247,7 +276,7 @@ End Frame.
 (** Unary invariants as frames. *)
 Section FrameInv.
   Variable Q : state -> Prop.
-  Hypothesis Q_amb : forall s a, Q s -> Q (set_amb s a).
+  Hypothesis Q_pending : forall s p, Q s -> Q (set_pending s p).
   Hypothesis Q_head : forall s id, Q s -> Q (fst (rem_head s id)).
 
   Let R (s s' : state) : Prop := Q s -> Q s'.
@@ -255,17 +284,19 @@ Section FrameInv.
   Let R_trans : forall a b c, R a b -> R b c -> R a c := fun a b c H1 H2 H => H2 (H1 H).
 
   Lemma st_rem_inv s id now : Q s -> Q (fst (st_rem s id now)).
-  Proof. exact (st_rem_R R R_refl R_trans Q_amb Q_head s id now). Qed.
+  Proof. exact (st_rem_R R R_refl R_trans Q_pending Q_head s id now). Qed.
   Lemma st_rem_rec_inv s id now : Q s -> Q (fst (st_rem_rec s id now)).
-  Proof. exact (st_rem_rec_R R R_refl R_trans Q_amb Q_head s id now). Qed.
+  Proof. exact (st_rem_rec_R R R_refl R_trans Q_pending Q_head s id now). Qed.
   Lemma rem_fuel_inv fuel s id now : Q s -> Q (fst (rem_fuel fuel s id now)).
-  Proof. exact (rem_fuel_R R R_refl R_trans Q_amb Q_head fuel s id now). Qed.
+  Proof. exact (rem_fuel_R R R_refl R_trans Q_pending Q_head fuel s id now). Qed.
+  Lemma purge_frame_inv s now : Q s -> Q (fst (purge s now)).
+  Proof. exact (purge_R R R_refl R_trans Q_pending Q_head s now). Qed.
   Lemma st_search_inv s p now : Q s -> Q (fst (st_search s p now)).
-  Proof. exact (st_search_R R R_refl R_trans Q_amb Q_head s p now). Qed.
+  Proof. exact (st_search_R R R_refl R_trans Q_pending Q_head s p now). Qed.
   Lemma st_get_inv s id now : Q s -> Q (fst (st_get s id now)).
-  Proof. exact (st_get_R R R_refl R_trans Q_amb Q_head s id now). Qed.
+  Proof. exact (st_get_R R R_refl R_trans Q_pending Q_head s id now). Qed.
   Lemma st_Rem_inv s id now : Q s -> Q (fst (st_Rem s id now)).
-  Proof. exact (st_Rem_R R R_refl R_trans Q_amb Q_head s id now). Qed.
+  Proof. exact (st_Rem_R R R_refl R_trans Q_pending Q_head s id now). Qed.
   Lemma st_find_rules_inv s ev now : Q s -> Q (fst (st_find_rules s ev now)).
-  Proof. exact (st_find_rules_R R R_refl R_trans Q_amb Q_head s ev now). Qed.
+  Proof. exact (st_find_rules_R R R_refl R_trans Q_pending Q_head s ev now). Qed.
 End FrameInv.
